@@ -239,6 +239,7 @@ def unpack_items(tier):
     out = [{"id": "unpack-K%d-%dx%d" % (k, a, b), "entry": "HarnessUnpackSafety", "params": {"K": k, "nName": a, "nLink": b}, "shards": sh, "_w": 50} for (k, a, b, sh) in cfg]
     if tier == "quick":
         seg = [("HarnessUnpackSeg", {"K": 1, "sName": 2, "sLink": 4}, 6), ("HarnessUnpackSeg", {"K": 2, "sName": 1, "sLink": 2}, 20),
+               ("HarnessUnpackSeg", {"K": 1, "sName": 3, "sLink": 1, "segTypes": 4}, 4),
                ("HarnessUnpackStep", {"K": 1, "sName": 2, "sLink": 1, "sPre": 2}, 12),
                ("HarnessUnpackStep", {"K": 1, "sName": 2, "sLink": 1, "sPre": 1, "nDst": 8}, 20),
                ("HarnessUnpackSafety", {"K": 1, "nName": 2, "nLink": 2, "nDst": 8}, 4),
@@ -258,7 +259,7 @@ CHECKS["C01"] = {
     "explanation": "entry sequences x names x link targets are symbolic; the monitor is the model filesystem's mutation log compared segment-wise with dst; natively: before/after snapshot of the arena around dst",
     "anchors": ["(*github.com/hashicorp/go-slug.Packer).Unpack", "github.com/hashicorp/go-slug/internal/unpackinfo.NewUnpackInfo", "(*github.com/hashicorp/go-slug.Packer).validSymlink",
                 "(github.com/hashicorp/go-slug/internal/unpackinfo.UnpackInfo).RestoreInfo"],
-    "bounds": {"quick": "raw byte names: K=1 entry name 0..4 bytes, link target 0..5 bytes; K=2: 0..2 / 0..2; 6 type flags, mode 9 free bits. Segment-structured (names of 1 free byte, segments name/../././empty, optional leading slash): K=1 name <=2 segments, target <=4; K=2 name 1, target <=2. Inductive step (also with 8 spellings of dst: doubled slash, dot segments, trailing slash, via .., by way of a relative or an absolute symlink; raw names 0..2 bytes with the same 8 spellings; and with K=2 single-segment entries, there without the extra directory): destination already holding one arbitrary symlink (target <=2 segments, absolute or not) and maybe a directory, then one entry (name <=2 segments, target <=1). dst=/w/d (absolute, clean) with sibling /w/d2, victim files and directory",
+    "bounds": {"quick": "raw byte names: K=1 entry name 0..4 bytes, link target 0..5 bytes; K=2: 0..2 / 0..2; 6 type flags, mode 9 free bits. Segment-structured (names of 1 free byte, segments name/../././empty, optional leading slash): K=1 name <=2 segments, target <=4; K=1 name <=3 segments incl. PAX global header records; K=2 name 1, target <=2. Inductive step (also with 8 spellings of dst: doubled slash, dot segments, trailing slash, via .., by way of a relative or an absolute symlink; raw names 0..2 bytes with the same 8 spellings; and with K=2 single-segment entries, there without the extra directory): destination already holding one arbitrary symlink (target <=2 segments, absolute or not) and maybe a directory, then one entry (name <=2 segments, target <=1). dst=/w/d (absolute, clean) with sibling /w/d2, victim files and directory",
                "thorough": "raw: K=1: 0..7 / 0..7; K=2: 0..4 / 0..4; K=3: 0..2 / 0..2; segments: K=1 (4,5), K=2 (3,4), K=3 (2,3); step: K=1 (name 4, pre-link 4), K=2 (3,3)"},
     "assumptions": A_COMMON + ["A-tar: archive/tar + gzip deliver the headers written (names without NUL); byte-level stream corruption is outside", "vfs: root privileges, ELOOP after 8 hops, closed world /w"],
     "groups": [
@@ -811,3 +812,7 @@ for _g in CHECKS["C19"]["groups"]:
         for _k in ("sym_overlays", "native_overlays"):
             if "harness/slug/pack.go" not in _g[_k]:
                 _g[_k] = _g[_k] + ["harness/slug/pack.go"]
+CHECKS["C06"]["groups"][0]["quick"] += [
+    {"id": "packageof-q-url", "entry": "HarnessC06PackageOf", "sparams": {"tmpl": "https://example.com/foo.tgz//modules/v{a1}c?mirror=https://cdn.example.com/f{a1}o.tgz"}, "_w": 3},
+    {"id": "packageof-q-ref", "entry": "HarnessC06PackageOf", "sparams": {"tmpl": "git::https://example.com/r.git//m{a1}?ref=a//{a1}"}, "_w": 3},
+    {"id": "packageof-plain", "entry": "HarnessC06PackageOf", "sparams": {"tmpl": "git::https://example.com/r.git//{2}"}, "_w": 3}]
